@@ -352,7 +352,16 @@ class Z3Session:
         try:
             self.p.stdin.write(text)
             self.p.stdin.flush()
+            import select
+            deadline = time.time() + self.timeout_ms / 1000.0 + 2.0
             while True:
+                # hard deadline: the solver's own soft timeout is not honoured in every phase
+                ready, _, _ = select.select([self.p.stdout], [], [], max(0.0, deadline - time.time()))
+                if not ready:
+                    self.close()
+                    self.p = None
+                    self.hard_timeouts = getattr(self, "hard_timeouts", 0) + 1
+                    return "unknown"
                 ln = self.p.stdout.readline()
                 if not ln:
                     self.p = None
